@@ -610,9 +610,21 @@ func (r *RegisteredDecoys) track(d *DecoyRegistration) error {
 		regID:            d.IDString(),
 		status:           regStatusUnused,
 	}
-	r.decoysTimeouts[d.IDString()+phantomAddr] = newTimeout
+	r.decoysTimeouts[r.timeoutKey(d, phantomAddr)] = newTimeout
 
 	return nil
+}
+
+// timeoutKey is the index of a registration's timeout record. It includes the transport
+// identifier: the phantom depends only on the secret, so one secret registered with several
+// transports shares a phantom, and without the identifier the later registration replaced the
+// earlier one's record, which was then never expired.
+func (r *RegisteredDecoys) timeoutKey(d *DecoyRegistration, phantomAddr string) string {
+	key := d.IDString() + phantomAddr
+	if t, ok := r.transports[d.Transport]; ok {
+		key += t.GetIdentifier(d)
+	}
+	return key
 }
 
 func (r *RegisteredDecoys) register(darkDecoyAddr string, d *DecoyRegistration) error {
@@ -652,7 +664,7 @@ func (r *RegisteredDecoys) markActive(d *DecoyRegistration) {
 	defer r.m.Unlock()
 
 	phantomAddr := d.PhantomIp.String()
-	if regTimeout, ok := r.decoysTimeouts[d.IDString()+phantomAddr]; ok {
+	if regTimeout, ok := r.decoysTimeouts[r.timeoutKey(d, phantomAddr)]; ok {
 		regTimeout.status = regStatusUsed
 
 		// Since we update the applicable timeout here, we should update that
